@@ -10,7 +10,7 @@ TARGET = dict(
                  "blocker callbacks release their blocker, as upipe_helper_input.h and every caller in the tree do",
                  "upump_restart is exercised on stopped pumps only for timers (documented domain); the mock's real_restart re-arms any pump type",
                  "ev: one pump at a time on a fresh loop; the 0-tick timer is made deterministic by spinning until CLOCK_MONOTONIC has advanced before the iteration"],
-    execs=[dict(name="mock", harness="harness/C13_pump_mock.c", repo=LIBUPIPE, share=1.0),
+    execs=[dict(name="mock", harness="harness/C13_pump_mock.c", repo=LIBUPIPE, fault_malloc=True, share=1.0),
            dict(name="ev", harness="harness/C13_pump_ev.c", repo=LIBUPIPE + ["lib/upump-ev/upump_ev.c"], libs=["-lev"], share=1.0)],
     quick=dict(cases=60000, budget=22), thorough=dict(cases=600000, budget=240),
 )
